@@ -2,7 +2,7 @@
 //! Two-party history: program-side port writes (through running code and through direct bus calls)
 //! interleaved with environment-side input changes (arbitrary f32 bit patterns), compared with
 //! R-BOARD after every single operation.
-use crate::boardref::{clamp_voltage, dac_voltage, BoardRef, DAISR_SPEC_MASK, DASR_SPEC_MASK};
+use crate::boardref::{clamp_voltage, dac_voltage, BoardRef, DAISR_SPEC_MASK, DASR_COMP1, DASR_COMP2, DASR_SPEC_MASK};
 use crate::checks::c13::random_f32_bits;
 use crate::driver::{mix, Check, Ctx, Tier, Violation};
 use crate::lockstep::ref_apply_env;
@@ -23,6 +23,9 @@ pub enum Op {
     ProgWrite(u8, u8),
     /// a program loads from the port: LD R0,(addr) ; STOP
     ProgRead(u8),
+    /// CPU reset, `micr` written to the interrupt-enable mask 0xF9, then `n` clock edges of an idle
+    /// loop (with `ie`: behind an EI): the board status must not move without an input or port event
+    Idle { micr: u8, n: u8, ie: bool },
 }
 
 #[derive(Clone, Debug, Serialize, Deserialize)]
@@ -123,6 +126,45 @@ fn run_history(ops: &[Op], ctx: &mut Ctx) -> Result<(), Violation> {
     for (i, op) in ops.iter().enumerate() {
         let ff_before = rf.board.int_ff;
         match op {
+            Op::Idle { micr, n, ie } => {
+                m.cpu_reset();
+                // JR MAIN ; ISR: RETI ; NOP ; MAIN: LDSP 0xEF ; [EI] ; L: JR L
+                let mut p = crate::gen::Prog::new();
+                p.byte(0x20).byte(0x02);
+                p.reti();
+                p.nop();
+                p.ldsp(crate::gen::Src::Imm(0xEF));
+                if *ie {
+                    p.ei();
+                }
+                let l = p.here();
+                p.jr_to(0, l);
+                let code = p.b;
+                for (k, b) in code.iter().enumerate() {
+                    m.raw_mut().bus_mut().memory_mut()[k] = *b;
+                }
+                m.raw_mut().bus_mut().write(0xF9, *micr);
+                for _ in 0..*n {
+                    m.trigger_key_clock();
+                }
+                ctx.cov.fault("IDLE-CLOCK-EDGES");
+                if m.state() != State::Running {
+                    return Err(v("harness", i, "idle loop halted".into()));
+                }
+            }
+            Op::S(Stim::MasterReset) => {
+                m.master_reset();
+                rf.board.master_reset();
+                // comparator bits after a master reset are not pinned by any statement (the DACs are
+                // cleared, whether the comparators are re-evaluated is open): read them from the tree
+                let d = m.bus().board().dasr().bits();
+                rf.board.comp = [d & DASR_COMP1 != 0, d & DASR_COMP2 != 0];
+                ctx.cov.fault("RST-MASTER");
+            }
+            Op::S(Stim::CpuReset) => {
+                m.cpu_reset();
+                ctx.cov.fault("RST-CPU");
+            }
             Op::S(s) => {
                 s.apply(&mut m);
                 ref_apply_env(&mut rf, s);
@@ -252,7 +294,11 @@ fn random_op(rng: &mut Rng) -> Op {
             let (a, val) = port_write(rng);
             Op::ProgWrite(a, val)
         }
-        7 => Op::ProgRead(0xF0 + rng.below(4) as u8),
+        7 => match rng.below(4) {
+            0 => Op::Idle { micr: if rng.bool() { rng.u8() } else { 1 << rng.below(6) }, n: 1 + rng.below(40) as u8, ie: rng.bool() },
+            1 => Op::S(if rng.chance(2, 3) { Stim::MasterReset } else { Stim::CpuReset }),
+            _ => Op::ProgRead(0xF0 + rng.below(4) as u8),
+        },
         8 => Op::S(Stim::BusRead(0xF0 + rng.below(4) as u8)),
         9..=12 => Op::S(Stim::Volt(rng.below(3) as u8, grid_voltage(rng))),
         13 | 14 => Op::S(Stim::Jumper(1 + rng.below(2) as u8, rng.bool())),
@@ -361,13 +407,13 @@ impl Check for C14 {
         out
     }
     fn rule(&self) -> String {
-        "Histories of 5-80 operations: writes to 0xF0-0xF3 with every byte value (ICR writes selecting each of the 8 sources x rising/falling, UDR, UOR, 0xF3 clears) issued by direct bus calls and by running helper programs, program reads of 0xF0-0xF3, and environment setters (jumpers, UIO pins, digital input, voltages drawn from DAC grid points exactly on / one ulp above / one ulp below each step, clamp edges, non-finite values and raw bit patterns); the whole board status is compared with R-BOARD after every operation. Clamping rule: strided slices (quick) or all 2^32 bit patterns (thorough) through each of the three voltage setters. distinct = distinct (interrupt source + polarity, raised?, cause class) combinations plus clamp slices.".into()
+        "Histories of 5-80 operations: writes to 0xF0-0xF3 with every byte value (ICR writes selecting each of the 8 sources x rising/falling, UDR, UOR, 0xF3 clears) issued by direct bus calls and by running helper programs, program reads of 0xF0-0xF3, idle clock edges with arbitrary interrupt-enable masks (0xF9) with and without IE, CPU and master resets, and environment setters (jumpers, UIO pins, digital input, voltages drawn from DAC grid points exactly on / one ulp above / one ulp below each step, clamp edges, non-finite values and raw bit patterns); the whole board status is compared with R-BOARD after every operation. Clamping rule: strided slices (quick) or all 2^32 bit patterns (thorough) through each of the three voltage setters. distinct = distinct (interrupt source + polarity, raised?, cause class) combinations plus clamp slices.".into()
     }
     fn assumptions(&self) -> Vec<String> {
         vec![
             "R-BOARD (sim/src/boardref.rs) is written from the C14 statement; DASR.FAN and DAISR bits 2-7 are masked; the effect of a UOR write on the status bits of input-configured pins and the never-cleared source flag are mirrored de facto".into(),
             "fan period register: 255 - DAC byte within +-1 LSB (tolerance for the documented rpm quantisation)".into(),
-            "no resets inside C14 histories (the statement speaks of port writes and external input changes)".into(),
+            "resets inside C14 histories: a master reset clears both output ports, the interrupt control register and the UIO directions in R-BOARD; the comparator bits right after it are read from the tree (not pinned by any statement), everything afterwards is determined again".into(),
         ]
     }
     fn components(&self) -> Value {
